@@ -79,6 +79,42 @@ m("unknown-section-silent", "chartparse/chart.py",
   "                logger.warning(cls._unhandled_data_section_log_msg_tmpl.format(header_tag))",
   "                logger.debug(cls._unhandled_data_section_log_msg_tmpl.format(header_tag))", ["C06"])
 m("brace-stripped-compare", "chartparse/chart.py", 'elif line == "}":', 'elif line.strip() == "}":', ["C06"])
+# ---- C13
+m("select-by-instrument-only", "chartparse/chart.py",
+  "if want_tracks is not None and instrument_difficulty_pair not in want_tracks:",
+  "if want_tracks is not None and instrument_difficulty_pair[0] not in [w[0] for w in want_tracks]:", ["C13"])
+m("select-after-parse", "chartparse/chart.py",
+  """                if want_tracks is not None and instrument_difficulty_pair not in want_tracks:
+                    continue
+                instrument, difficulty = instrument_difficulty_pair
+                track = InstrumentTrack.from_chart_lines(
+                    instrument,
+                    difficulty,
+                    data_section_lines,
+                    sync_track.bpm_events,
+                )
+""",
+  """                instrument, difficulty = instrument_difficulty_pair
+                track = InstrumentTrack.from_chart_lines(
+                    instrument,
+                    difficulty,
+                    data_section_lines,
+                    sync_track.bpm_events,
+                )
+                if want_tracks is not None and instrument_difficulty_pair not in want_tracks:
+                    continue
+""", ["C13"])
+m("empty-selection-means-all", "chartparse/chart.py",
+  "if want_tracks is not None and instrument_difficulty_pair not in want_tracks:",
+  "if want_tracks and instrument_difficulty_pair not in want_tracks:", ["C13"])
+# ---- C14
+m("dispatch-no-break", "chartparse/track.py", "            m[t].append(data)\n            break\n", "            m[t].append(data)\n            continue\n", ["C14"])
+m("dispatch-warning-debug", "chartparse/track.py",
+  "            logger.warning(_unparsable_line_msg_tmpl", "            logger.debug(_unparsable_line_msg_tmpl", ["C14"])
+m("star-power-any-index", "chartparse/instrument.py", '_index_regex = r"2"', '_index_regex = r"\\d+"', ["C14", "C07"])
+m("junk-stops-section", "chartparse/track.py",
+  "            logger.warning(_unparsable_line_msg_tmpl.format(line, [t.__qualname__ for t in types]))",
+  "            logger.warning(_unparsable_line_msg_tmpl.format(line, [t.__qualname__ for t in types]))\n            if len(m._dict) >= 3:\n                break", ["C14"])
 # ---- C08
 m("bpm-sum-parts", "chartparse/sync.py",
   "bpm = int(data.raw_bpm) / 1000",
